@@ -162,6 +162,15 @@ impl<R> NsReader<R> {
         }
     }
 
+    /// Closes the namespace scope of an element whose content and end tag were
+    /// consumed by the underlying reader (`read_to_end*()` / `read_text()`)
+    /// without passing through [`Self::process_event()`].
+    pub(super) fn pop_skipped(&mut self) {
+        // Apply the pop that was postponed for the previous event, if any
+        self.pop();
+        self.ns_resolver.pop();
+    }
+
     pub(super) fn process_event<'i>(&mut self, event: Result<Event<'i>>) -> Result<Event<'i>> {
         match event {
             Ok(Event::Start(e)) => {
@@ -604,7 +613,10 @@ impl<R: BufRead> NsReader<R> {
     pub fn read_to_end_into(&mut self, end: QName, buf: &mut Vec<u8>) -> Result<Span> {
         // According to the https://www.w3.org/TR/xml11/#dt-etag, end name should
         // match literally the start name. See `Config::check_end_names` documentation
-        self.reader.read_to_end_into(end, buf)
+        let span = self.reader.read_to_end_into(end, buf)?;
+        // The skipped element has ended, so its namespace declarations are out of scope
+        self.pop_skipped();
+        Ok(span)
     }
 }
 
@@ -840,7 +852,10 @@ impl<'i> NsReader<&'i [u8]> {
     pub fn read_to_end(&mut self, end: QName) -> Result<Span> {
         // According to the https://www.w3.org/TR/xml11/#dt-etag, end name should
         // match literally the start name. See `Config::check_end_names` documentation
-        self.reader.read_to_end(end)
+        let span = self.reader.read_to_end(end)?;
+        // The skipped element has ended, so its namespace declarations are out of scope
+        self.pop_skipped();
+        Ok(span)
     }
 
     /// Reads content between start and end tags, including any markup. This
@@ -910,7 +925,10 @@ impl<'i> NsReader<&'i [u8]> {
     /// [`decoder()`]: Reader::decoder()
     #[inline]
     pub fn read_text(&mut self, end: QName) -> Result<Cow<'i, str>> {
-        self.reader.read_text(end)
+        let text = self.reader.read_text(end)?;
+        // The element has ended, so its namespace declarations are out of scope
+        self.pop_skipped();
+        Ok(text)
     }
 }
 
